@@ -1365,6 +1365,18 @@ class Prover:
     def iter_index_range(self, t):
         """t = (next(enumerate it) as Some).0.0 -> [0, len-1]"""
         if t[0] == "field" and t[2] == 0 and t[1][0] == "field" and t[1][2] == 0 and t[1][1][0] == "downcast":
+            nx_ = t[1][1][1]
+            if util.is_call(nx_) and "CharIndices" in nx_[1] and nx_[1].endswith("::next"):
+                # the byte offset of a character of s: below s.len()
+                for lp in util.for_loops(self.ctx, self.se):
+                    if strip(lp["elem"]) == t[1] and lp["init_call"] is not None:
+                        src = strip(lp["init_call"][2][0])
+                        if util.is_call(src, "core::str::<impl str>::char_indices"):
+                            l = self.rng(("len", src[2][0]), lp["next_bb"])
+                            if l[1] != INF:
+                                return (0, max(0, l[1] - 1))
+                return None
+        if t[0] == "field" and t[2] == 0 and t[1][0] == "field" and t[1][2] == 0 and t[1][1][0] == "downcast":
             nx = t[1][1][1]
             if util.is_call(nx) and "Enumerate" in nx[1] and nx[1].endswith("::next"):
                 # find the loop this next belongs to
